@@ -67,6 +67,9 @@ pub struct Case {
     pub interleave: Vec<usize>,
     /// the continuation transfers of every delivery repeat its delivery-tag (they may)
     pub repeat_tag: bool,
+    /// the incoming-window of the listener's session (small: it states its session counters in a flow every
+    /// window/2 transfers it takes in)
+    pub listener_window: u32,
 }
 
 fn ref_json(r: &TxnRef) -> J {
@@ -87,7 +90,7 @@ fn ref_from(j: &J) -> TxnRef {
 
 impl Case {
     pub fn to_json(&self) -> J {
-        json!({"ctrl_links": self.ctrl_links, "data_links": self.data_links, "interleave": self.interleave, "repeat_tag": self.repeat_tag, "ops": self.ops.iter().map(|o| match o {
+        json!({"ctrl_links": self.ctrl_links, "data_links": self.data_links, "interleave": self.interleave, "repeat_tag": self.repeat_tag, "listener_window": self.listener_window, "ops": self.ops.iter().map(|o| match o {
             Op::Declare { ctrl } => json!({"declare": ctrl}),
             Op::Post { link, txn, frames, settled, state_on_all, abort_first } => json!({"post": link, "txn": ref_json(txn), "frames": frames, "settled": settled, "state_on_all": state_on_all, "abort_first": abort_first}),
             Op::Discharge { ctrl, txn, fail } => json!({"discharge": ctrl, "txn": ref_json(txn), "fail": fail}),
@@ -118,7 +121,7 @@ impl Case {
             }
         }).collect();
         let interleave = j.get("interleave").and_then(|x| x.as_array()).map(|a| a.iter().filter_map(|x| x.as_u64()).map(|x| x as usize).collect()).unwrap_or_default();
-        Some(Case { ctrl_links: j.get("ctrl_links")?.as_u64()? as usize, data_links: j.get("data_links")?.as_u64()? as usize, ops, interleave, repeat_tag: j.get("repeat_tag").and_then(|x| x.as_bool()).unwrap_or(false) })
+        Some(Case { ctrl_links: j.get("ctrl_links")?.as_u64()? as usize, data_links: j.get("data_links")?.as_u64()? as usize, ops, interleave, repeat_tag: j.get("repeat_tag").and_then(|x| x.as_bool()).unwrap_or(false), listener_window: j.get("listener_window").and_then(|x| x.as_u64()).unwrap_or(2048) as u32 })
     }
 }
 
@@ -184,7 +187,7 @@ pub fn gen_case(rng: &mut Rng, first_frame_state_only: bool) -> Case {
         };
         ops.push(op);
     }
-    Case { ctrl_links, data_links, ops, interleave: vec![], repeat_tag: rng.chance(1, 3) }
+    Case { ctrl_links, data_links, ops, interleave: vec![], repeat_tag: rng.chance(1, 3), listener_window: *rng.pick(&[2048u32, 2048, 4, 6, 16]) }
 }
 
 // ------------------------------------------------------------------------------- the run
@@ -203,6 +206,9 @@ pub struct Observed {
     pub issued: usize,
     /// every transfer the script wrote: (index into `outs` of its op, `handle:txn:tag:more:aborted`)
     pub frame_log: Vec<(usize, String)>,
+    /// per flow the listener sent while the script waited for an answer: (transfers it had certainly taken in
+    /// by then, the next-incoming-id the flow states; the script's first transfer has id 0)
+    pub flows: Vec<(u32, u32)>,
 }
 
 fn label_body(label: u32, size: usize) -> Vec<u8> {
@@ -221,6 +227,12 @@ struct Script {
     session_gone: Option<String>,
     /// the op being issued, and per transfer written: (op, what `TxnSession::on_incoming_transfer` looks at)
     cur_op: usize,
+    /// transfers written before the op that was last answered began (the listener has taken all of those in),
+    /// transfers written before the current op began, and per flow read from the listener: (that bound, the
+    /// next-incoming-id it states)
+    lower: u32,
+    op_start: u32,
+    flows: Vec<(u32, u32)>,
     repeat_tag: bool,
     frame_log: Vec<(usize, String)>,
     txn_names: Vec<Vec<u8>>,
@@ -330,7 +342,13 @@ impl Script {
             match self.peer.recv_frame().await {
                 Ok((_, Performative::Disposition(d), _)) => {
                     if d.first <= id && id <= d.last.unwrap_or(d.first) {
+                        self.lower = self.op_start;
                         return Some(d);
+                    }
+                }
+                Ok((_, Performative::Flow(f), _)) => {
+                    if let Some(n) = f.next_incoming_id {
+                        self.flows.push((self.lower, n));
                     }
                 }
                 Ok((_, Performative::End(e), _)) => {
@@ -370,6 +388,7 @@ pub fn run_case(case: &Case) -> Result<Observed, String> {
         let notes: Arc<Mutex<Vec<String>>> = Arc::new(Mutex::new(vec![]));
         let d2 = delivered.clone();
         let n2 = notes.clone();
+        let listener_window = case.listener_window.max(2);
         let listener = tokio::spawn(async move {
             let acc = ConnectionAcceptor::new("resource");
             let mut conn = match acc.accept(sio).await {
@@ -379,7 +398,7 @@ pub fn run_case(case: &Case) -> Result<Observed, String> {
                     return;
                 }
             };
-            let sacc = SessionAcceptor::builder().control_link_acceptor(ControlLinkAcceptor::default()).build();
+            let sacc = SessionAcceptor::builder().control_link_acceptor(ControlLinkAcceptor::default()).incoming_window(listener_window).build();
             let mut session = match sacc.accept(&mut conn).await {
                 Ok(s) => s,
                 Err(e) => {
@@ -446,7 +465,7 @@ pub fn run_case(case: &Case) -> Result<Observed, String> {
             (_, Performative::Begin(_), _) => {}
             (_, other, _) => return Err(format!("expected begin, got {}", summarize(&other, 0))),
         }
-        let mut sc = Script { peer, next_out: 0, ctrl_handles: vec![], data_handles: vec![], tag: 0, session_gone: None, cur_op: 0, repeat_tag: case.repeat_tag, frame_log: vec![], txn_names: vec![] };
+        let mut sc = Script { peer, next_out: 0, ctrl_handles: vec![], data_handles: vec![], tag: 0, session_gone: None, cur_op: 0, lower: 0, op_start: 0, flows: vec![], repeat_tag: case.repeat_tag, frame_log: vec![], txn_names: vec![] };
         // links: control links first
         let mut handle = 0u32;
         for c in 0..case.ctrl_links {
@@ -504,6 +523,7 @@ pub fn run_case(case: &Case) -> Result<Observed, String> {
             }
             obs.issued += 1;
             sc.cur_op = obs.outs.len();
+            sc.op_start = sc.next_out;
             if case.interleave.contains(&op_index) {
                 if let (Op::Post { link: la, txn: ta, frames, settled: sa, state_on_all: aa, .. }, Some(Op::Post { link: lb, txn: tb, settled: sb, state_on_all: ab, .. })) = (op, case.ops.get(op_index + 1)) {
                     let ha = sc.data_handles[*la % sc.data_handles.len()];
@@ -741,6 +761,7 @@ pub fn run_case(case: &Case) -> Result<Observed, String> {
         sc.peer.recv_timeout = Duration::from_millis(200);
         let _ = sc.peer.recv_frame().await;
         obs.frame_log = std::mem::take(&mut sc.frame_log);
+        obs.flows = std::mem::take(&mut sc.flows);
         drop(sc);
         let _ = tokio::time::timeout(Duration::from_secs(60), listener).await;
         obs.delivered = delivered.lock().unwrap().clone();
@@ -927,6 +948,13 @@ fn canon(line: &str, links: usize) -> String {
 }
 
 pub fn check(case: &Case, obs: &Observed) -> Option<(String, String)> {
+    // C07 at a transactional session: the next-incoming-id the listener states counts every transfer it has
+    // taken in, withheld under a transaction or not
+    for (lower, nii) in &obs.flows {
+        if (nii.wrapping_sub(*lower) as i32) < 0 {
+            return Some(("next-incoming-id-misses-withheld-transfers".into(), format!("the listener had taken in the transfers 0..{} when it sent a flow stating next-incoming-id {} (incoming-window of its session {}): the transfers it withholds under a transaction are not counted", lower, nii, case.listener_window)));
+        }
+    }
     let (want_outs, want_snaps) = oracle(case, obs.issued);
     for i in 0..obs.outs.len().min(want_outs.len()) {
         let got = &obs.outs[i];
@@ -1567,6 +1595,7 @@ pub fn main(opts: &Opts) {
                         ],
                         interleave: vec![1],
                         repeat_tag: frames == 3 && all_a,
+                        listener_window: 2048,
                     });
                 }
             }
@@ -1585,7 +1614,7 @@ pub fn main(opts: &Opts) {
                     ops.push(Op::Post { link: 0, txn: TxnRef::None, frames, settled: false, state_on_all: true, abort_first: false });
                     ops.push(Op::Discharge { ctrl: 0, txn: TxnRef::Slot(0), fail });
                     ops.push(Op::Post { link: 0, txn: TxnRef::None, frames: 2, settled: false, state_on_all: true, abort_first: false });
-                    corpus.push(Case { ctrl_links: 1, data_links: 1, ops, interleave: vec![], repeat_tag: plain_first && frames == 2 });
+                    corpus.push(Case { ctrl_links: 1, data_links: 1, ops, interleave: vec![], repeat_tag: plain_first && frames == 2, listener_window: if more { 4 } else { 2048 } });
                 }
             }
         }
@@ -1624,6 +1653,7 @@ pub fn main(opts: &Opts) {
                         _ => "other",
                     });
                 }
+                report.count_n("listener_flows_judged_for_next_incoming_id", obs.flows.len() as u64);
                 if k < 3 {
                     report.sample(json!({"resource": case.to_json(), "outs": obs.outs}));
                 }
